@@ -98,10 +98,6 @@ impl P<'_> {
 				None => return Err(()),
 				Some('"') => {
 					self.i += 1;
-					if out.is_empty() {
-						// the documentation does not say whether "" is a value
-						self.dontcare = true;
-					}
 					return Ok(Some(out));
 				}
 				Some('\\') => {
@@ -399,6 +395,8 @@ fn node_shapes() -> Vec<(Node, Vec<bool>)> {
 		n("a", vec![("k", vec!["| , [ ] = #"], false)]),
 		n("Z9", vec![("A-b_1", vec!["\u{00fc}\u{1F600}"], false)]),
 		n("a", vec![("k", vec!["true"], false), ("k2", vec!["a", "b", "c", "d"], true)]),
+		// the empty text as a quoted value and as a list element
+		n("a", vec![("k", vec![""], false), ("k2", vec!["", "x", ""], true)]),
 	]
 }
 
@@ -660,6 +658,16 @@ fn factory_cases(ctx: &Arc<Ctx>) {
 			"filter_zoom max=1.5".into(),
 			"filter_zoom min=256".into(),
 		];
+		// misspelled / unknown parameter names, text that is no boolean for a flag, a source list behind an
+		// operation that takes none
+		bad_transforms.extend(["filter_zoom mni=3 max=5", "filter_zoom minzoom=3", "filter_zoom Min=3", "filter_zoom min=1 zoom=2", "filter_bbox bbox=[1,2,3,4] max=3", "filter_bbox bbox=[1,2,3,4] bboxx=[1,2,3,4]"].map(String::from));
+		bad_transforms.extend(["filter_zoom min=1 [ from_debug format=pbf ]", "filter_zoom min=1 [ bogus a=b ]", "filter_bbox bbox=[1,2,3,4] [ from_container filename=\"mem:1\" ]"].map(String::from));
+		bad_transforms.push(format!("{up} id_field=\"id\""));
+		for key in ["replace_properties", "remove_non_matching", "include_id"] {
+			for text in ["ture", "2", "maybe", "\"\\n\""] {
+				bad_transforms.push(format!("{up} {key}={text}"));
+			}
+		}
 		bad_transforms.extend(scalar_as_list("filter_zoom", "min"));
 		bad_transforms.extend(scalar_as_list("filter_zoom max=3", "min"));
 		bad_transforms.extend(scalar_as_list("filter_zoom", "max"));
@@ -686,6 +694,7 @@ fn factory_cases(ctx: &Arc<Ctx>) {
 			}
 		}
 		let mut bad_reads: Vec<String> = vec!["from_nowhere".into(), "filter_zoom min=1".into(), "from_container".into(), "from_debug".into(), "from_debug format=xyz".into(), "from_container filename=\"does-not-exist.versatiles\"".into()];
+		bad_reads.extend(["from_debug format=pbf fsat=true", "from_debug format=pbf fast=ture", "from_debug format=pbf fast=2", "from_debug format=pbf fast=maybe", "from_debug format=pbf Format=png", "from_container filename=\"mem:0\" compression=gzip", "from_container filename=\"mem:0\" file=\"mem:1\"", "from_container filename=\"mem:0\" [ no_such_operation ]", "from_container filename=\"mem:0\" [ from_container filename=\"mem:1\" ]", "from_debug format=pbf [ from_debug format=pbf ]"].map(String::from));
 		bad_reads.extend(scalar_as_list("from_debug", "format"));
 		bad_reads.extend(scalar_as_list("from_debug format=pbf", "fast"));
 		bad_reads.extend(scalar_as_list("from_container", "filename"));
@@ -772,16 +781,15 @@ fn factory_cases(ctx: &Arc<Ctx>) {
 	}
 	ctx.outcome_n("factory: valid pipelines", valid.len() as u64);
 	ctx.outcome_n("factory: invalid pipelines", invalid.len() as u64);
-	ctx.extra("factory_not_asserted", json!("unknown parameter names and non-boolean text for boolean flags are silently ignored by the implementation; the statement's 'mistyped' is read as 'wrong type for a typed value', so these are not judged"));
 }
 
 pub fn run(ctx: Arc<Ctx>) {
 	ctx.rule(
 		"positive: syntax trees (pipelines of 1..3 of 12 node shapes, 0..2 nested sources from 5 nested pipelines incl. a second nesting level) rendered canonically and with every 1 deviation (whitespace variant at each optional site / quoting a bare value) and every 2 deviations for the first trees; \
 		 differential: every string of length <= 6 (quick) / <= 7 (thorough) over the alphabet a 1 k = \" \\ [ ] , | space plus all single-character deletions/insertions of two valid texts, against a reference recursive-descent parser of the documented grammar (constructs the documentation is silent about are not judged); \
-		 factory: valid texts; invalid texts = hand-picked ones + every invalid node (unknown names, missing / out-of-range / mistyped values, a bracketed list of 0, 2 entries where one value is expected, for every scalar parameter of every operation) x every position (after the source, after a filter that keeps tiles, after filters that leave no tile, before a valid node, nested in a source list). nested source lists whose sources take different times to open keep the written order. non-trivial = trees with nesting or several operations + accepted differential strings",
+		 factory: valid texts; invalid texts = hand-picked ones + every invalid node (unknown operation names, unknown / misspelled parameter names, missing / out-of-range / mistyped values incl. text that is no boolean for a flag, a source list behind an operation that takes none, a bracketed list of 0, 2 entries where one value is expected, for every scalar parameter of every operation) x every position (after the source, after a filter that keeps tiles, after filters that leave no tile, before a valid node, nested in a source list). nested source lists whose sources take different times to open keep the written order. non-trivial = trees with nesting or several operations + accepted differential strings",
 	);
-	ctx.assume("the reference parser encodes the documented grammar: identifier = letter (letter|digit|_|-)*, bare value = (letter|digit|.|-|_)+, quoted value with escapes \\\\ \\\" \\n \\t, list in brackets with commas, sources in brackets separated by commas, operations separated by |, whitespace = space/tab/CR/LF; undocumented: repeated keys, empty lists, trailing separators, empty quoted strings");
+	ctx.assume("the reference parser encodes the documented grammar: identifier = letter (letter|digit|_|-)*, bare value = (letter|digit|.|-|_)+, quoted value with escapes \\\\ \\\" \\n \\t, list in brackets with commas, sources in brackets separated by commas, operations separated by |, whitespace = space/tab/CR/LF; undocumented: repeated keys, empty lists, trailing separators");
 	positive_space(&ctx);
 	differential(&ctx);
 	factory_cases(&ctx);
